@@ -91,7 +91,7 @@ func main() {
 		}
 		w := chain.NewWorld(cr, p.NKeys, p.NIn, p.NKn)
 		ops, cfg := chain.Generate(cr, w, p)
-		runHistory(o, res, cases, w, ops, cfg, []int{0, 1, 3, 100}[cr.Intn(4)], ci, kind)
+		runHistory(o, res, cases, w, ops, cfg, []int{0, 1, 2, 100, 100}[cr.Intn(5)], ci, kind)
 	}
 	pool(o, res, vh.NewRand(r.U64()))
 
